@@ -88,6 +88,12 @@ def build_layer(l, name):
             ema_freeze_delay=l.get("ema_freeze_delay"),
             folding_mode=l.get("folding_mode", "ema_stats_folding"),
             dilation_rate=l.get("dilation", 1), name=name)
+  if l.get("epsilon") is not None:
+    kw["epsilon"] = l["epsilon"]
+  if l.get("momentum") is not None:
+    kw["momentum"] = l["momentum"]
+  if l.get("act") is not None:
+    kw["activation"] = q(l["act"])
   if l["t"] == "QConv2DBatchnorm":
     return qk.QConv2DBatchnorm(l["filters"], l["kernel"],
                                kernel_quantizer=q(l.get("kq")),
@@ -196,6 +202,9 @@ def seed_layer(layer, g, stats="normal"):
   layer.set_weights(ws)
 
 
+EXPECT_EPS = {}
+
+
 def folded_weights(layer):
   """[q(folded kernel), q(folded bias)] from the CURRENT parameters, plus a
   flag telling whether the codes are stable under a 2e-6 relative change of
@@ -208,7 +217,9 @@ def folded_weights(layer):
   bias = layer.bias.numpy() if layer.use_bias else np.float32(0)
   var = bn.moving_variance.numpy()
   mean = bn.moving_mean.numpy()
-  inv = (1.0 / np.sqrt(var.astype(np.float64) + bn.epsilon))
+  # the epsilon the world was BUILT with (never the layer's own bookkeeping)
+  inv = (1.0 / np.sqrt(var.astype(np.float64) + np.float32(
+      EXPECT_EPS.get(layer.name, 1e-3))))
   if bn.gamma is not None:
     inv = inv * bn.gamma.numpy()
   beta = bn.beta.numpy() if bn.beta is not None else 0.0
@@ -251,9 +262,12 @@ def reference_model(model):
     if cls in FOLDED:
       (k, b), st = folded_weights(layer)
       stable[0] = stable[0] and st
+      act = layer.activation
+      if act is not None and getattr(act, "__name__", "") == "linear":
+        act = None
       common = dict(strides=layer.strides, padding=layer.padding,
                     dilation_rate=layer.dilation_rate, use_bias=True,
-                    name=layer.name)
+                    activation=act, name=layer.name)
       if cls == "QConv2DBatchnorm":
         new = L.Conv2D(layer.filters, layer.kernel_size, **common)
       else:
@@ -261,9 +275,6 @@ def reference_model(model):
                                 depth_multiplier=layer.depth_multiplier,
                                 **common)
       repl[layer.name] = [k, b]
-      if layer.activation is not None and \
-          getattr(layer.activation, "__name__", "") != "linear":
-        raise HarnessError("folded layer with activation not generated")
       return new
     return layer.__class__.from_config(layer.get_config())
   import qkeras.utils as qu
@@ -316,6 +327,11 @@ class World:
       for l in self.model.layers:
         if l.weights:
           seed_layer(l, g)
+    EXPECT_EPS.clear()
+    if not self.spec.get("convert"):
+      for i, l in enumerate(self.spec["layers"]):
+        if l.get("epsilon") is not None:
+          EXPECT_EPS["f%d" % i] = float(l["epsilon"])
     self.clock = {l.name: -1 for l in self.model.layers
                   if type(l).__name__ in FOLDED}
     self.check_clock("after-build")
@@ -661,6 +677,23 @@ def generate(rng):
       l["padding"] = "same"
       l["strides"] = 1
   world = {"layers": layers, "wseed": rng.subseed()}
+  # batch-norm hyper-parameters and a fused activation: only for directly built
+  # folded layers (the conversion utilities rebuild the architecture with
+  # default BN hyper-parameters and never copy weights, DESIGN 6.3)
+  direct_opts = []
+  for l in layers:
+    o = {}
+    if rng.chance(0.4):
+      o["epsilon"] = rng.pick([1e-2, 1e-5, 0.1])
+    if rng.chance(0.3):
+      o["momentum"] = rng.pick([0.9, 0.5, 0.0])
+    if rng.chance(0.3):
+      o["act"] = rng.pick([{"str": "quantized_relu(4,1)"},
+                           {"str": "quantized_bits(6,2,1)"},
+                           {"cls": "quantized_relu", "kw": {
+                               "bits": 6, "integer": 2,
+                               "negative_slope": 0.125}}])
+    direct_opts.append(o)
   if rng.chance(0.3):
     world["convert"] = True
     world["relu_between"] = rng.chance(0.5)
@@ -669,9 +702,12 @@ def generate(rng):
     if rng.chance(0.5):
       world["convert_folding_mode"] = rng.pick(["ema_stats_folding",
                                                 "batch_stats_folding"])
-  elif rng.chance(0.3):
-    world["layers"].insert(1, {"t": "QActivation", "aq": {
-        "str": rng.pick(["quantized_relu(6,2)", "quantized_bits(8,3,1)"])}})
+  else:
+    for l, o in zip(layers, direct_opts):
+      l.update(o)
+    if rng.chance(0.3):
+      world["layers"].insert(1, {"t": "QActivation", "aq": {
+          "str": rng.pick(["quantized_relu(6,2)", "quantized_bits(8,3,1)"])}})
   ops = [{"k": "INFER", "xseed": rng.subseed()}] if rng.chance(0.5) else []
   for _ in range(rng.randrange(3, 12)):
     k = rng.wpick([("TRAIN", 5), ("INFER", 5), ("JUMP", 2), ("STATS", 2),
@@ -785,6 +821,7 @@ def simplify(scn):
     for key, val in (("kq", None), ("dq", None), ("bq", None),
                      ("ema_freeze_delay", None), ("use_bias", True),
                      ("center", True), ("scale", True), ("strides", 1),
+                     ("epsilon", None), ("momentum", None), ("act", None),
                      ("dilation", 1)):
       if key in l and l[key] != val:
         c = json.loads(json.dumps(scn))
